@@ -187,7 +187,12 @@ impl<'a> TypedGen<'a> {
                     E::In { not: t.chance(1, 2), x: Box::new(x), list }
                 }
                 6 => match t.draw(3) {
-                    0 => E::call(if t.chance(1, 2) { "regexp_matches" } else { "regex_matches" }, vec![self.gen(t, Ty::Text, d), E::Str(t.pick(&["a", "^a", "[0-9]+", "b$", "", "("]).to_string())]),
+                    0 => {
+                        // the pattern is a literal or (a third of the time) depends on the row
+                        let subject = self.gen(t, Ty::Text, d);
+                        let pattern = if t.chance(1, 3) { self.gen(t, Ty::Text, d.min(1)) } else { E::Str(t.pick(&["a", "^a", "[0-9]+", "b$", "", "("]).to_string()) };
+                        E::call(if t.chance(1, 2) { "regexp_matches" } else { "regex_matches" }, vec![subject, pattern])
+                    }
                     1 => E::cast(E::Str(t.pick(&["true", "false", "TRUE", "1"]).to_string()), "boolean"),
                     _ => self.case(t, Ty::Bool, d),
                 },
